@@ -70,5 +70,15 @@ def mutate(doc, rng):
     return "case-swap", doc.swapcase()
 
 
+def numeric_cross(doc, cap=24):
+    """every numeric field of the document replaced by every extreme value (deterministic, no random draw)"""
+    import re
+    out = []
+    for x in list(re.finditer(rb"-?\d+(\.\d+)?", doc))[:cap]:
+        for v in NUMS:
+            out.append(("numeric-extreme", doc[:x.start()] + v + doc[x.end():]))
+    return out
+
+
 def nesting(open_b, close_b, depth, inner=b""):
     return open_b * depth + inner + close_b * depth
